@@ -6,6 +6,8 @@
 // lemmas written from SEMI E37 and the property statements, not from the code they specify.
 package hsmsss
 
+import "github.com/arloliu/go-secs/v2/hsms"
+
 // --- clause-language prelude (used by the verifier symbolically and by replay tests at run time) ---
 
 func zzOld[T any](x T) T   { return x }
